@@ -118,6 +118,40 @@ pub fn events(thorough: bool) -> Vec<Ev> {
             v.push(Ev { name, run: sim, banks: e });
         }
     }
+    // well-formed events whose pad packets have different numbers of samples (a conversion buffer shared between
+    // packets is sized by whichever packet the map yields first)
+    for (na, nb, name) in [(511usize, 300usize, "well-formed, two pad packets with 511 and 300 samples"), (140, 250, "well-formed, two pad packets with 140 and 250 samples")] {
+        let col = wire_column(20);
+        let mut e: Banks = vec![trg(61)];
+        // the cluster of the longer packet sits beyond the end of the shorter one
+        let (bin_a, bin_b) = if na > nb { (na - DELAY - 60, 5) } else { (5, nb - DELAY - 60) };
+        let mut wsig = vec![0.0; 460];
+        add_wire_pulse(&mut wsig, bin_a, 120.0);
+        add_wire_pulse(&mut wsig, bin_b, 90.0);
+        let (wb, wch) = m.wire[20];
+        e.push((wire_bank_name(wb, wch), wire_packet(wb, wch, &digitise_wire(&wsig))));
+        // two clusters in the same column, on pads that belong to different (board, chip) groups
+        let mut groups: std::collections::BTreeMap<(&'static str, u8), Vec<(u16, Vec<i16>)>> = Default::default();
+        for (rows, bin) in [([100usize, 101, 102], bin_a), ([400, 401, 402], bin_b)] {
+            for (r, a) in rows.iter().zip([40.0, 100.0, 55.0]) {
+                let (bd, chip, ch) = m.pad[&(col, *r)];
+                let n = if rows[0] == 100 { na } else { nb };
+                let mut sg = vec![0.0; n - DELAY];
+                if bin + 20 < sg.len() {
+                    add_pad_pulse(&mut sg, bin, a);
+                }
+                groups.entry((bd, chip)).or_default().push((readout_index(ch), digitise_pad(&sg)));
+            }
+        }
+        if groups.len() >= 2 {
+            for ((bd, chip), mut chans) in groups {
+                chans.sort_by_key(|c| c.0);
+                let req = chans[0].1.len() as u16;
+                e.extend(pwb_banks(bd, chip, &pwb_payload(bd, chip, req, &chans), 65535));
+            }
+            v.push(Ev { name, run: sim, banks: e });
+        }
+    }
     // a 4-chunk PWB message in which one chunk carries the id of a neighbour (payload in arrival order would be
     // right under some bank orders and scrambled under others; the id sequence has a hole in every order)
     {
